@@ -168,7 +168,13 @@ def burst(port, reqs, timeout=30):
     """reqs: list of (request bytes, tls).  All sockets are connected first, then released together by a barrier.
     Returns (replies, intervals) with intervals = (t_start, t_end) per request."""
     n = len(reqs)
-    socks = [connect(port, timeout) for _ in range(n)]
+    socks = []
+    for _ in range(n):
+        # a server that stops accepting (listen queue full for 10 s on loopback) is a finding, not a harness error
+        try:
+            socks.append(connect(port, 10) if not (socks and isinstance(socks[-1], Exception)) else socks[-1])
+        except OSError as e:
+            socks.append(e)
     barrier = threading.Barrier(n)
     replies = [None] * n
     times = [None] * n
@@ -177,6 +183,8 @@ def burst(port, reqs, timeout=30):
         try:
             barrier.wait(timeout=timeout)
             t0 = time.monotonic()
+            if isinstance(socks[i], Exception):
+                raise socks[i]
             replies[i] = exchange(socks[i], reqs[i][0], reqs[i][1], timeout)
             times[i] = (t0, time.monotonic())
         except Exception as e:  # connection-level failure is a finding (server stopped answering), not a harness error
